@@ -160,6 +160,9 @@ def ctlOp (s : RState) (t : List String) : RState :=
   | ["deliver", a, b, i] =>
     { s with w := applyStep w (.deliver (hostOf a) (hostOf b) (i.toNat?.getD 0)), expectObs := none }
   | ["mark", _] => { s with expectObs := some "ok" }
+  | ["xprobe_bw", _, _, _] =>
+    -- a probe on a private Sim inside the harness (blocked writer, real task and waker): no effect on this world
+    { s with expectObs := some "ok" }
   | ["reglate"] =>
     let i := w.hosts.length
     let (ip, w) := w.dnsLookup s!"n{i}"
@@ -237,11 +240,11 @@ def ownedOk (w : World) : Bool :=
 /-- loopback messages still queued on running hosts. -/
 def loPending (w : World) : Nat := (w.hosts.map (fun hs => if hs.running then hs.lo.length else 0)).sum
 
-def parseCfg (toks : List String) (link : Cfg) (fixLeak fixFin : Bool) : WCfg :=
+def parseCfg (toks : List String) (link : Cfg) (fixLeak fixFin fixWr : Bool) : WCfg :=
   { tick := (if kvNat toks "tick_us" 0 > 0 then kvNat toks "tick_us" 0 * 1000 else kvNat toks "tick_ms" 1 * 1000000),
     tcpCap := kvNat toks "tcpcap" 64, udpCap := kvNat toks "udpcap" 64,
     ephLo := kvNat toks "ephlo" 49152, ephHi := kvNat toks "ephhi" 65535,
-    link := link, fixConnectLeak := fixLeak, fixFinRedrain := fixFin }
+    link := link, fixConnectLeak := fixLeak, fixFinRedrain := fixFin, fixWriterReset := fixWr }
 
 def parseOracle (lines : List String) : List Ora :=
   lines.filterMap (fun l =>
@@ -252,11 +255,11 @@ def parseOracle (lines : List String) : List Ora :=
     | _ => none)
 
 /-- Replay a case under one model variant. Result: final state. -/
-def replay (lines : List String) (link : Cfg) (fixLeak fixFin : Bool) : RState :=
+def replay (lines : List String) (link : Cfg) (fixLeak fixFin : Bool) (fixWr : Bool := true) : RState :=
   let cfgToks := match lines.find? (·.startsWith "CFG ") with
     | some l => (l.splitOn " ").filter (· != "")
     | none => []
-  let w0 : World := { cfg := parseCfg cfgToks link fixLeak fixFin, oracle := parseOracle lines,
+  let w0 : World := { cfg := parseCfg cfgToks link fixLeak fixFin fixWr, oracle := parseOracle lines,
                       v6 := kvGet cfgToks "ipv" == some "6" }
   let (s, _) := lines.foldl (fun (acc : RState × Nat) l =>
     let s := line acc.1 acc.2 l
